@@ -34,6 +34,14 @@ __all__ = ['Maildir', 'Message', 'MailboxData', 'MailboxSet']
 
 class Maildir(_Maildir):
 
+    def __init__(self, dirname: str, factory: Any = None,
+                 create: bool = True) -> None:
+        super().__init__(dirname, factory, create)
+        # complete a maildir whose creation was interrupted between mkdirs
+        for path in self._paths.values():  # type: ignore
+            if not os.path.isdir(path):
+                os.mkdir(path, 0o700)
+
     @property
     def _path_new(self) -> str:
         return self._paths['new']  # type: ignore
